@@ -198,3 +198,23 @@ func c20CrashProbes() []c20input {
 	}
 	return out
 }
+
+// c20HangProbes: an acyclic chain in which every level refers twice to the next (D0: allOf [D1, D1], ... D34: integer; 2 KB of
+// text) with a default on top: Validate checks the default against the schema and visits every one of the 2^34 paths. Each probe
+// runs in a process of its own, announced as "probe:composition-dag-exponential ...": the CPU-time watchdog decides.
+func c20HangProbes() []c20input {
+	var out []c20input
+	for _, kw := range []string{"allOf", "anyOf"} {
+		dag := gen.S{}
+		const n = 34
+		for i := 0; i < n; i++ {
+			next := gen.S{"$ref": fmt.Sprintf("#/components/schemas/D%d", i+1)}
+			dag[fmt.Sprintf("D%d", i)] = gen.S{kw: gen.Arr(next, next)}
+		}
+		dag[fmt.Sprintf("D%d", n)] = gen.S{"type": "integer"}
+		dag["S"] = gen.S{"allOf": gen.Arr(gen.S{"$ref": "#/components/schemas/D0"}), "default": 1.0}
+		b, _ := json.Marshal(gen.S{"openapi": "3.0.3", "info": gen.S{"title": "t", "version": "1"}, "paths": gen.S{}, "components": gen.S{"schemas": dag}})
+		out = append(out, c20input{origin: fmt.Sprintf("chain of %s pairs, %d deep, with default", kw, n), data: b})
+	}
+	return out
+}
